@@ -405,7 +405,15 @@ def inert_cell(P, A):
             B.note(sig='second-roDelete-not-refused', observed=B.conc(o2.exc))
             return False
     sig = None
-    if out.raised:
+    if P.get('prop') == 'atomic':
+        # C05 reading of the same scenario: whatever the message is refused for, a raise changes nothing
+        if out.raised and B.snap(ro.xml) != root_snap:
+            sig = 'changed-before-raising-' + type(out.exc).__name__
+    elif P.get('prop') == 'exc':
+        from mosromgr.exc import MosMergeError as _MME
+        if out.raised and not isinstance(out.exc, _MME):
+            sig = 'escaped-' + type(out.exc).__name__
+    elif out.raised:
         sig = 'raised-' + type(out.exc).__name__
     elif out.warns:
         sig = 'warned'
